@@ -1,15 +1,15 @@
-/* F18 (key elem-trunc-linked): Htrunc on a linked-block element acts on the DD of the 16-byte description record */
+/* F18 (key elem-trunc-linked): Htrunc on a linked-block element: refused since 1e2fd75 (before: it cut the DD of the 16-byte description record); truncation is still missing for this storage form */
 #include "pk.h"
 int main(void){
   uint8 w[16], buf[32]; for (int i = 0; i < 16; i++) w[i] = i + 1;
   int32 fid = Hopen("f18.hdf", DFACC_CREATE, 16);
   int32 aid = HLcreate(fid, 100, 1, 4, 2);
   printf("Hwrite(10) -> %d\n", (int)Hwrite(aid, 10, w));
-  printf("Htrunc(3)  -> %d   (claims success)\n", (int)Htrunc(aid, 3));
+  printf("Htrunc(3)  -> %d   (since 1e2fd75: refused; before: 3, and the description record was cut)\n", (int)Htrunc(aid, 3));
   inq(aid);                                            /* len is still 10 */
   Hseek(aid, 0, DF_START); int n = Hread(aid, 0, buf);
   printf("Hread(all) -> %d   (expected 3)\n", n);
   Hseek(aid, 10, DF_START);
-  printf("Hwrite(2) at the end -> %d   (the description record was cut to 3 bytes: the length update fails)\n", (int)Hwrite(aid, 2, w));
+  printf("Hwrite(2) at the end -> %d   (works again since 1e2fd75)\n", (int)Hwrite(aid, 2, w));
   Hendaccess(aid); Hclose(fid); return 0;
 }
